@@ -2,38 +2,51 @@ From Coq Require Import ZArith List Bool Lia ZifyBool.
 From HV Require Import Prelude.Py Prelude.State Prelude.Utf8 Prelude.PyExtra Bridge.B_dec_lib.
 From HV Require Gen.GData Gen.GInt Gen.GTable Gen.GHuff Gen.GDecoder Gen.GEncoder.
 From HV Require Model.Data Model.Int Model.Table Model.HuffEnc Model.HuffDec Model.Decoder Model.Encoder.
+From Coq Require Import Init.Byte.
 Import ListNotations.
 Open Scope Z_scope.
 
-(** The regenerated text is the for loop over self.table_size_changes with state (block, self); the
-    model is the recursion encode_size_changes on the list.  The loop ends Done with the model's block,
-    or Raised with the model's exception (self is never touched inside). *)
+(** The regenerated text is the for loop over self.table_size_changes, whose state is (acc, self) where acc is
+    the block so far (block += ...) or the list of its pieces (pieces.append(...), joined at the end); the
+    model is the recursion encode_size_changes on the list.  With [abs] = identity / concat: the loop ends
+    Done with an accumulator whose [abs] is the model's block, or Raised with the model's exception (self
+    is never touched inside). *)
 Lemma b_Encoder__encode_table_size_change : forall e,
   GEncoder.Encoder__encode_table_size_change e = Encoder.Encoder__encode_table_size_change e.
 Proof.
   intros e. unfold GEncoder.Encoder__encode_table_size_change, Encoder.Encoder__encode_table_size_change.
-  cbv zeta.
+  expose.
   match goal with
-  | |- match for_each ?l ?g (?b0, ?s0) with _ => _ end = _ =>
-      assert (L : forall xs blk,
-                 match Encoder.encode_size_changes xs blk with
-                 | Ok b => for_each xs g (blk, s0) = Done (b, s0)
-                 | Err x => exists b', for_each xs g (blk, s0) = Raised x (b', s0)
+  | |- context [for_each ?l ?g (?u0, ?s0)] =>
+      let T := type of u0 in let T := eval cbv delta [bytes] in T in
+      lazymatch T with
+      | list (list _) => pose (abs := @concat Byte.byte); pose (snoc := fun (u : list bytes) (b : bytes) => u ++ [b])
+      | _ => pose (abs := fun b : bytes => b); pose (snoc := fun (u b : bytes) => u ++ b)
+      end;
+      assert (Happ : forall u b, abs (snoc u b) = abs u ++ b)
+        by (intros; unfold abs, snoc; rewrite ?concat_app; cbn [concat]; rewrite ?app_nil_r; reflexivity);
+      assert (L : forall xs u,
+                 match Encoder.encode_size_changes xs (abs u) with
+                 | Ok b => exists u', for_each xs g (u, s0) = Done (u', s0) /\ abs u' = b
+                 | Err x => exists u', for_each xs g (u, s0) = Raised x (u', s0)
                  end)
   end.
-  { induction xs as [|x r IH]; intros blk; cbn [for_each Encoder.encode_size_changes]; [reflexivity|].
+  { induction xs as [|x r IH]; intros u; cbn [for_each Encoder.encode_size_changes]; [eexists; split; reflexivity|].
     expose; rewrite ?(b_encode_integer x 5).
-    destruct (Int.encode_integer x 5) as [b|x1]; expose; [|eexists; reflexivity].
-    destruct (or_first b 32) as [b1|x1]; expose; [|eexists; reflexivity].
-    apply IH. }
+    destruct (Int.encode_integer x 5) as [b|x1] eqn:E; expose; [|eexists; reflexivity].
+    facts.
+    match goal with |- context [Encoder.encode_size_changes r (abs u ++ ?w)] =>
+      specialize (IH (snoc u w)); rewrite Happ in IH; exact IH end. }
   specialize (L (e_changes e) []).
+  change (abs []) with (@nil Byte.byte) in L.
   destruct (Encoder.encode_size_changes (e_changes e) []) as [b|x].
-  - match goal with |- match ?X with _ => _ end = _ =>
-      let H := fresh in assert (H : X = Done (b, e)) by exact L; rewrite H end.
-    reflexivity.
-  - destruct L as [b' L].
-    match goal with |- match ?X with _ => _ end = _ =>
-      let H := fresh in assert (H : X = Raised x (b', e)) by exact L; rewrite H end.
+  - destruct L as (u' & L & Hu).
+    match goal with |- context [for_each ?xs ?g ?s] =>
+      let H := fresh in assert (H : for_each xs g s = Done (u', e)) by exact L; rewrite H end.
+    unfold abs in Hu. subst b. reflexivity.
+  - destruct L as [u' L].
+    match goal with |- context [for_each ?xs ?g ?s] =>
+      let H := fresh in assert (H : for_each xs g s = Raised x (u', e)) by exact L; rewrite H end.
     reflexivity.
 Qed.
 Print Assumptions b_Encoder__encode_table_size_change.
